@@ -9,6 +9,7 @@ import (
 	"fmt"
 	"hash/fnv"
 	"os"
+	"sort"
 	"strings"
 )
 
@@ -221,6 +222,21 @@ func (c *caseCtx) checkSerialize() []byte {
 // ownContent: the document is the container's own content
 func (c *caseCtx) ownContent(js []byte, sc content) []byte {
 	kind := c.cfg.Kind
+	if c.kv && c.s.goMapJSON != nil {
+		gm, gerr := c.s.goMapJSON()
+		same := gerr == nil && bytes.Equal(js, gm) // the Go-map based encoders: byte for byte
+		if gerr == nil && (kind == "LinkedHashMap" || !same) {
+			// LinkedHashMap keeps its own member order; otherwise tolerate a different but equivalent spelling
+			if gdoc, err := parseDoc(gm); err == nil {
+				if gc, err := docContent(gdoc, true, c.s.kt, c.s.vt); err == nil {
+					same = gc.sorted().ranks() == sc.sorted().ranks() && keyTexts(js) == keyTexts(gm)
+				}
+			}
+		}
+		c.check("tojson_equals_go_map", same, "ToJSON differs from json.Marshal of the equivalent Go map (member names / values)", func() string {
+			return fmt.Sprintf("expected %s (%v), observed %s", docText(gm), gerr, docText(js))
+		})
+	}
 	exp := content{kv: c.kv}
 	if c.kv {
 		for _, k := range c.s.keys() {
@@ -553,6 +569,38 @@ func (c *caseCtx) loadMalformed() {
 			doc = []byte("{")
 		}
 	}
+	c.tryMalformed(doc, what)
+}
+
+// loadBigMalformed: a document longer than 64 KiB whose LAST element / member is wrongly typed
+func (c *caseCtx) loadBigMalformed() {
+	dg := c.newDocGen()
+	dg.wsPct = 0
+	var b bytes.Buffer
+	if c.kv {
+		b.WriteByte('{')
+		for i := 0; i < 9000; i++ {
+			b.WriteString(dg.keyLit(c.s.kt, c.gen.atom()) + ":" + dg.lit(c.s.vt, c.gen.atom()) + ",")
+		}
+		b.WriteString(dg.keyLit(c.s.kt, c.gen.atom()) + ":" + c.g.pick(atomOf(c.s.vt).bad) + "}")
+	} else {
+		b.WriteByte('[')
+		for i := 0; i < 20000; i++ {
+			b.WriteString(dg.lit(c.s.kt, c.gen.atom()) + ",")
+		}
+		b.WriteString(c.g.pick(atomOf(c.s.kt).bad) + "]")
+	}
+	for b.Len() < 70000 {
+		b.WriteString("          ")
+	}
+	doc := b.Bytes()
+	if !typedDecodeFails(doc, c.kv, c.s.kt, c.s.vt) {
+		return // the "bad" literal happens to be acceptable here (cannot happen with the current lists)
+	}
+	c.tryMalformed(doc, fmt.Sprintf("%d bytes, wrongly typed LAST element", len(doc)))
+}
+
+func (c *caseCtx) tryMalformed(doc []byte, what string) {
 	via := "FromJSON"
 	if c.g.chance(30) {
 		via = "json.Unmarshal"
@@ -584,13 +632,23 @@ func (c *caseCtx) loadMalformed() {
 func chooseConfig(g *rng, seed uint64, idx int) Config {
 	kind := allKinds[(idx+int(seed%21))%len(allKinds)]
 	cfg := Config{Kind: kind, KT: "string", VT: "string", Cap: 1, Order: 3}
+	variant := idx / len(allKinds)
 	if isKVKind(kind) {
-		switch (idx / len(allKinds)) % 3 {
-		case 1:
-			cfg.KT = "int"
-		case 2:
-			cfg.VT = "int"
+		// key / value types: strings and ints, struct and *int values, named integer key types with a
+		// String method (encoding/json still writes decimal member names)
+		kvTypes := [][2]string{{"string", "string"}, {"int", "string"}, {"string", "int"}, {"string", "struct"}, {"dur", "string"},
+			{"string", "ptr"}, {"string", "string"}, {"int", "struct"}, {"duration", "int"}, {"dur", "struct"}, {"int", "ptr"}, {"duration", "string"}}
+		t := kvTypes[variant%len(kvTypes)]
+		if t[1] == "ptr" && isBidiKind(kind) { // pointer identity cannot key the inverse map meaningfully
+			t = [2]string{"string", "string"}
 		}
+		cfg.KT, cfg.VT = t[0], t[1]
+	} else {
+		cfg.KT = []string{"string", "int", "string", "struct", "string", "ptr"}[variant%6]
+		if cfg.KT == "ptr" && isSetKind(kind) { // sets of pointers: membership is pointer identity
+			cfg.KT = "string"
+		}
+		cfg.VT = cfg.KT
 	}
 	cfg.KRev = takesComparator(kind) && g.chance(50)
 	cfg.VRev = kind == "TreeBidiMap" && g.chance(50)
@@ -665,6 +723,10 @@ func runCase(pid string, seed uint64, idx int, verbose bool, checks map[string]i
 			}
 			c.mutators(5)
 		}
+		if idx%200 < 4 { // a handful of cases per run
+			c.loadBigMalformed()
+			c.mutators(3)
+		}
 	}
 	js := c.checkSerialize()
 	c.checkReload(js)
@@ -673,4 +735,15 @@ func runCase(pid string, seed uint64, idx int, verbose bool, checks map[string]i
 		fmt.Fprintf(os.Stderr, "  final observation (string side, ranks):\n%s", obsText(observe(c.s)))
 	}
 	return
+}
+
+// keyTexts: the member names of a top-level object exactly as spelled (decoded), sorted
+func keyTexts(doc []byte) string {
+	n, err := parseDoc(doc)
+	if err != nil || n.kind != 'o' {
+		return "<invalid>"
+	}
+	ks := append([]string{}, n.keys...)
+	sort.Strings(ks)
+	return strings.Join(ks, "\x00")
 }
